@@ -263,7 +263,14 @@ func (c *Ctx) Finish(kf KnownFile) Result {
 	}
 	sort.Strings(rules)
 	for _, id := range rules {
-		if count[id] < c.mins[id] {
+		// Vacuity guard. The confirmed count is the number of sites read on the pinned tree; a behaviour-preserving
+		// edit may legitimately merge a few sites (two calls folded into one helper), so the guard trips only when
+		// fewer than half of the confirmed sites are still seen — a smaller drop is recorded as a note in the evidence.
+		if count[id] < c.mins[id] && count[id] >= (c.mins[id]+1)/2 {
+			c.Notes = append(c.Notes, fmt.Sprintf("rule %s matched %d instances (confirmed on the pinned tree: %d)", id, count[id], c.mins[id]))
+			r.Notes = c.Notes
+		}
+		if count[id] < (c.mins[id]+1)/2 {
 			hasU := false
 			for _, f := range c.Findings {
 				if f.Rule == id && f.Status == Undecided {
